@@ -1546,6 +1546,7 @@ class DFA(fa.FA):
                 if candidate is None
                 else self._get_next_current_state(state, candidate)
             )
+            back_at_parent = False
             # Traverse to child if candidate is viable
             if candidate_state in coaccessible_nodes and (
                 max_length is None or len(char_stack) < max_length
@@ -1569,8 +1570,12 @@ class DFA(fa.FA):
                 if candidate is None:
                     state = state_stack.pop()
                     candidate = char_stack.pop()
+                    back_at_parent = True
                 candidate = next_symbol(candidate)
-            should_yield = True
+            # After backing out of a symbol that comes before every input symbol
+            # the next candidate is the first symbol again, but the word on the
+            # stack (a proper prefix of the input string) has been passed already
+            should_yield = not (back_at_parent and candidate == first_symbol)
         # Predecessor yields here for empty string
         state = state_stack[-1]
         if (
